@@ -27,6 +27,7 @@ structure ElemInfo where
   enc : String   -- name of the encodeABIData function
   dec : String   -- name of the decodeABIData function
   reader : String -- name of the function readExternalData delegates to
+  json : String   -- JSONEncodingType constant name
 deriving Repr, DecidableEq, Inhabited
 
 end FFS
